@@ -49,10 +49,15 @@ pub open spec fn trim_spec(s: Seq<char>) -> Seq<char> { trim_end_spec(trim_start
 pub assume_specification [ str::trim ] (s: &str) -> (r: &str) ensures r@ == trim_spec(s@);
 pub open spec fn starts_with_spec(s: Seq<char>, p: Seq<char>) -> bool { p.len() <= s.len() && s.subrange(0, p.len() as int) == p }
 pub open spec fn ends_with_spec(s: Seq<char>, p: Seq<char>) -> bool { p.len() <= s.len() && s.subrange(s.len() - p.len(), s.len() as int) == p }
+/// the patterns std accepts for starts_with / ends_with that occur in the code (or in small edits of it)
+pub trait VPat { spec fn pat(&self) -> Seq<char>; }
+impl VPat for &str { open spec fn pat(&self) -> Seq<char> { self@ } }
+impl VPat for &String { open spec fn pat(&self) -> Seq<char> { self@ } }
+impl VPat for char { open spec fn pat(&self) -> Seq<char> { seq![*self] } }
 #[verifier::external_body]
-pub fn v_starts_with(s: &str, p: &str) -> (r: bool) ensures r == starts_with_spec(s@, p@) { s.starts_with(p) }
+pub fn v_starts_with<P: VPat>(s: &str, p: P) -> (r: bool) ensures r == starts_with_spec(s@, p.pat()) { unimplemented!() }
 #[verifier::external_body]
-pub fn v_ends_with(s: &str, p: &str) -> (r: bool) ensures r == ends_with_spec(s@, p@) { s.ends_with(p) }
+pub fn v_ends_with<P: VPat>(s: &str, p: P) -> (r: bool) ensures r == ends_with_spec(s@, p.pat()) { unimplemented!() }
 #[verifier::external_body]
 pub fn vchars(s: &str) -> (r: Vec<char>) ensures r@ == s@ { s.chars().collect() }
 pub open spec fn first_nl(s: Seq<char>, i: int) -> int decreases s.len() - i {
